@@ -5,6 +5,7 @@ mod cases;
 mod catalogue;
 mod collect;
 mod fam_builtin;
+mod fam_varint;
 mod model;
 mod rng;
 mod sexp;
@@ -93,6 +94,7 @@ fn main() {
     let coll = match a.family.as_str() {
         "ty" => fam_builtin::run_ty(&a),
         "raw" => fam_builtin::run_raw(&a),
+        "varint" => fam_varint::run(&a),
         other => {
             eprintln!("unknown family {}", other);
             std::process::exit(2);
